@@ -17,10 +17,12 @@
       stream is unavailable."
    An observation is  [conf, handlers, started, strays]:
      conf      the configured destination list (input of Initialize / the last ReloadConf)
-     handlers  what the manager lists, in order: [id, dest, running, run]
-                 id   identity of the forwarder object (API id), numbered by first appearance
-                 run  identity of its current run (0 = never started); a restart gives a new run
-     started   the stream is available (input: Start was called more recently than Stop)
+     handlers  what the manager lists, in order: [id, dest, running, run, loops]
+                 id    identity of the forwarder object (API id), numbered by first appearance
+                 run   identity of its current run (0 = never started); a restart gives a new run
+                 loops number of run loops of this forwarder that are alive (2 = it was started twice)
+     started   the stream is available (what the caller did: Start was called more recently than Stop;
+               never read from the manager's own bookkeeping)
      strays    ids of forwarders that are no longer listed but still run                      *)
 EXTENDS VerifCommon
 
@@ -30,7 +32,7 @@ Lists == UNION {[1..n -> Tokens] : n \in 0..MaxLen}
 
 \* ------------------------------------------------------------------ layer 1: manager.go
 InitF(list) ==
-    [handlers |-> [i \in 1..Len(list) |-> [id |-> i, dest |-> list[i], running |-> FALSE, run |-> 0]],
+    [handlers |-> [i \in 1..Len(list) |-> [id |-> i, dest |-> list[i], running |-> FALSE, run |-> 0, loops |-> 0]],
      started |-> FALSE, nextId |-> Len(list) + 1, nextRun |-> 1, strays |-> {}]
 
 \* Start: m.started = true; every handler start()ed in list order
@@ -38,7 +40,7 @@ StartF(s) ==
     [s EXCEPT !.started = TRUE,
               !.handlers = [i \in 1..Len(s.handlers) |->
                               [id |-> s.handlers[i].id, dest |-> s.handlers[i].dest,
-                               running |-> TRUE, run |-> s.nextRun + i - 1]],
+                               running |-> TRUE, run |-> s.nextRun + i - 1, loops |-> 1]],
               !.nextRun = s.nextRun + Len(s.handlers)]
 
 \* Stop: m.started = false; every handler stop()ped (stop waits for the goroutine)
@@ -46,7 +48,7 @@ StopF(s) ==
     [s EXCEPT !.started = FALSE,
               !.handlers = [i \in 1..Len(s.handlers) |->
                               [id |-> s.handlers[i].id, dest |-> s.handlers[i].dest,
-                               running |-> FALSE, run |-> s.handlers[i].run]]]
+                               running |-> FALSE, run |-> s.handlers[i].run, loops |-> 0]]]
 
 \* ReloadConf: position by position; a handler is kept iff the same position holds an equal
 \* conf.ForwardDest; otherwise a new handler is created (and started if m.started) and the old one
@@ -60,7 +62,8 @@ ReloadF(s, list) ==
                               IF Kept(s, list, i) THEN s.handlers[i]
                               ELSE [id |-> s.nextId + NewUpTo(s, list, i) - 1, dest |-> list[i],
                                     running |-> s.started,
-                                    run |-> IF s.started THEN s.nextRun + NewUpTo(s, list, i) - 1 ELSE 0]],
+                                    run |-> IF s.started THEN s.nextRun + NewUpTo(s, list, i) - 1 ELSE 0,
+                                    loops |-> IF s.started THEN 1 ELSE 0]],
               !.nextId = s.nextId + n,
               !.nextRun = IF s.started THEN s.nextRun + n ELSE s.nextRun]
 
@@ -71,18 +74,19 @@ Idx(o) == 1..Len(o.handlers)
 
 \* "while a path's stream is available exactly one forwarder runs per configured destination, in
 \*  configuration order": the listed forwarders are, position by position, the configured
-\*  destinations, each one runs, they are distinct objects / distinct runs, nothing else runs.
+\*  destinations, each one runs exactly once (one live run loop), they are distinct objects /
+\*  distinct runs, nothing else runs.
 OnePerDest(o) ==
     o.started =>
         /\ Len(o.handlers) = Len(o.conf)
-        /\ \A i \in Idx(o) : o.handlers[i].dest = o.conf[i] /\ o.handlers[i].running
+        /\ \A i \in Idx(o) : o.handlers[i].dest = o.conf[i] /\ o.handlers[i].running /\ o.handlers[i].loops = 1
         /\ \A i, j \in Idx(o) : i # j => /\ o.handlers[i].id # o.handlers[j].id
                                          /\ o.handlers[i].run # o.handlers[j].run
         /\ o.strays = {}
 
 \* "no forwarder runs while the stream is unavailable"
 NoneWhileStopped(o) ==
-    ~o.started => (\A i \in Idx(o) : ~o.handlers[i].running) /\ o.strays = {}
+    ~o.started => (\A i \in Idx(o) : ~o.handlers[i].running /\ o.handlers[i].loops = 0) /\ o.strays = {}
 
 \* "after a reload unchanged destinations keep running untouched, changed or removed ones are
 \*  stopped and new ones started" (o before, o2 after a reload, stream available throughout).
@@ -98,7 +102,7 @@ Untouched(o, o2) ==
             /\ i <= Len(o2.handlers)
             /\ o2.handlers[i].id = o.handlers[i].id
             /\ o2.handlers[i].run = o.handlers[i].run
-            /\ o2.handlers[i].running
+            /\ o2.handlers[i].running /\ o2.handlers[i].loops = 1
 NewStarted(o, o2) ==
     \A i \in Idx(o2) :
         (i <= Len(o2.conf) /\ o2.conf[i] \notin Range(o.conf)) =>
